@@ -173,6 +173,23 @@ def run_syntactic(prop, repo, outdir):
                 st = "undischarged"
                 res["undecided"].append(f"syntactic:{fn}:{u.reason[:120]}")
             res["obligations"].append({"id": oid, "kind": "syntactic", "status": st, "weight": 1, "unit": "SYN", "features": "async", "backend": "syntactic"})
+    if prop == "C09":
+        # the four for_each variants read the shared counter through an RwLock: that the outcome state is computed from
+        # THAT read (made after the stream ended: it is part of the extracted epilogue, unit U18) is a syntactic condition
+        for fn in ("for_each_concurrent_internal", "for_each_concurrent_mut_internal", "try_for_each_concurrent_internal", "try_for_each_concurrent_mut_internal"):
+            oid = f"SYN/{fn}/C09.outcome-state-is-computed-from-the-shared-remaining-counter"
+            want = "* fns_remaining . read () . await"
+            try:
+                ex = run_extract(repo, ["async"], [{"name": "x", "file": "src/fn_graph.rs", "kind": "call_arg", "ident": fn, "impl_self": "FnGraph", "call": "stream_outcome_state_after_stream", "nth": 0, "arg": 0}], outdir)
+                got = ex["x"]["text"]
+                st = "discharged" if got.replace(" ", "") == want.replace(" ", "") else "FAILED"
+                if st == "FAILED":
+                    res["violations"].append({"oid": oid, "kind": "syntactic", "named": True, "message": f"argument of stream_outcome_state_after_stream in {fn} is `{got}`, expected `*fns_remaining.read().await`",
+                                              "rendered": f"{fn}: stream_outcome_state_after_stream({got})", "where": {"k": "syntactic", "fn": fn, "file": "src/fn_graph.rs", "span": ex["x"]["span"]}})
+            except Undecided as u:
+                st = "undischarged"
+                res["undecided"].append(f"syntactic:{fn}:{u.reason[:120]}")
+            res["obligations"].append({"id": oid, "kind": "syntactic", "status": st, "weight": 1, "unit": "SYN", "features": "async", "backend": "syntactic"})
     if prop in ("C15", "C20"):
         for (f, ident) in (("src/fn_graph.rs", "FnGraph"), ("src/edge_counts.rs", "EdgeCounts")):
             oid = f"SYN/{ident}/{prop}.no-interior-mutability-in-the-fields-of-{ident}"
@@ -238,7 +255,7 @@ def run_syntactic(prop, repo, outdir):
 
 def run(prop, tier, repo, outdir, seed):
     out = []
-    if prop in ("C10", "C15", "C20"):
+    if prop in ("C09", "C10", "C15", "C20"):
         out.append(run_syntactic(prop, repo, outdir))
     if prop in ("C19", "C20"):
         r = run_typecheck(prop, tier, repo, outdir, seed)
